@@ -387,7 +387,7 @@ fn verify_render(d: Dialect, sql: &str, vals: Option<&Values>, m: &Model, histor
         return bad("column-list");
     }
     let mut param_i = 0usize;
-    let mut cell = |tok: Option<&&Tok>, param_i: &mut usize| -> Option<i64> {
+    let cell = |tok: Option<&&Tok>, param_i: &mut usize| -> Option<i64> {
         match (tok, vals) {
             (Some(Tok::Num(n)), None) => n.parse().ok(),
             (Some(Tok::Param(_)), Some(v)) => {
@@ -456,7 +456,7 @@ fn verify_render(d: Dialect, sql: &str, vals: Option<&Values>, m: &Model, histor
             }
         }
         Source::SelectUnion(head, arm) => {
-            let mut read_select = |i: &mut usize, param_i: &mut usize| -> Option<Vec<i64>> {
+            let read_select = |i: &mut usize, param_i: &mut usize| -> Option<Vec<i64>> {
                 if !word(*i, "SELECT") {
                     return None;
                 }
